@@ -76,6 +76,55 @@ def parseReq (sw : Nat) (tok : String) : Request :=
   { lib := sw % 2 = 1, groups := sw / 2 % 2 = 1, kerning := sw / 4 % 2 = 1, features := sw / 8 % 2 = 1,
     data := sw / 16 % 2 = 1, images := sw / 32 % 2 = 1, all := all, loadDefault := ld, custom := custom }
 
+/-- the filter predicate behind a tag; `n` / `d` take their parameter from the harness's REQ token -/
+def predOf (tag : Char) (param : Str) : Str → Str → Bool :=
+  if tag = 't' then fun _ _ => true
+  else if tag = 'f' then fun _ _ => false
+  else if tag = 'x' then fun _ d => !(Path.parse d == Path.parse glyphsDir)
+  else if tag = 'n' then fun n _ => n == param
+  else fun _ d => Path.parse d == Path.parse param
+
+def partOf (c : Char) : Option PartSwitch :=
+  if c = 'l' then some .lib else if c = 'g' then some .groups else if c = 'k' then some .kerning
+  else if c = 'f' then some .features else if c = 'a' then some .data else if c = 'i' then some .images else none
+
+/-- one call token of a `seq=` recipe (see harness/src/c17.rs) -/
+def callOf (param : Str) (tok : String) : Option Call :=
+  let b := tok.endsWith "1"
+  if tok = "A" || tok = "Df" then some .all
+  else if tok = "N" then some .none
+  else if tok = "L1" || tok = "L0" then some (.layers b)
+  else if tok = "D1" || tok = "D0" then some (.defaultLayer b)
+  else match tok.toList with
+    | ['F', tag] => some (.filter tag (predOf tag param))
+    | [c, _] => (partOf c).map fun s => Call.part s b
+    | _ => none
+
+/-- the call sequence of a recipe: `seq=` as it is; the older `sw` + `shape` recipes as the harness translates them -/
+def callsOfRecipe (inp : List String) (param : Str) : List Call :=
+  let seq := field inp "seq"
+  let toks : List String :=
+    if seq ≠ "" then seq.splitOn "."
+    else
+      let sw := fieldNat inp "sw"
+      let parts := (["l", "g", "k", "f", "a", "i"].zipIdx).map fun (c, i) => c ++ (if sw / 2 ^ i % 2 = 1 then "1" else "0")
+      let tail := match fieldNat inp "shape" with
+        | 0 => ["L1"] | 1 => ["L0"] | 2 => ["D1"] | 3 => ["Fn"] | 4 => ["Fd"] | 5 => ["Ft"] | 6 => ["Ff"]
+        | 7 => ["D1", "Fn"] | 8 => ["Ff", "L1"] | 9 => ["L1", "D0"] | _ => ["Fx"]
+      ["N"] ++ parts ++ tail
+  toks.filterMap (callOf param)
+
+/-- the tag of the filter installed last (what the REQ token shows), `-` for none -/
+def lastTag (cs : List Call) : String :=
+  cs.foldl (fun acc c => match c with
+    | .all => "-" | .none => "-"
+    | .filter tag _ => String.singleton tag
+    | _ => acc) "-"
+
+def swOf (r : Request) : Nat :=
+  (if r.lib then 1 else 0) + (if r.groups then 2 else 0) + (if r.kerning then 4 else 0) +
+  (if r.features then 8 else 0) + (if r.data then 16 else 0) + (if r.images then 32 else 0)
+
 def sortS (l : List String) : List String := l.mergeSort (fun a b => decide (a ≤ b))
 
 /-- canonical dump of an abstract font at the abstraction level of C17 -/
@@ -121,7 +170,15 @@ def run (inp obs : List String) : Verdict :=
   let sw := if field obs "SW" ≠ "" then fieldNat obs "SW" else fieldNat inp "sw"
   let tree := parseTreeHex (field obs "TREE")
   let gtree := parseTreeHex (field obs "GTREE")
-  let req := parseReq sw (field obs "REQ")
+  -- the request is the MODEL's: `Req.apply` on the call sequence of the recipe.  The harness's own interpreter (REQ=, SW=)
+  -- must agree with it; its token only supplies the parameter of a by-name / by-directory predicate.
+  let reqTok := field obs "REQ"
+  let param := unhexD (String.ofList (reqTok.toList.drop 3))
+  let calls := callsOfRecipe inp param
+  let req := Req.apply calls
+  let modelTok := (if req.all then "1" else "0") ++ (if req.loadDefault then "1" else "0") ++ lastTag calls
+  let harnessTok := String.ofList (reqTok.toList.take 3)
+  let reqAgree := modelTok == harnessTok && swOf req == sw
   let fullS := sectionOf obs "FULL"
   let partS := sectionOf obs "PART"
   let garbS := sectionOf obs "GARB"
@@ -133,7 +190,7 @@ def run (inp obs : List String) : Verdict :=
   let mFull := dumpRes (loadImpl parser tree root Request.everything)
   let mPart := dumpRes (loadImpl parser tree root req)
   let mGarb := dumpRes (loadImpl parser gtree root req)
-  let agree := mFull == oFull && mPart == oPart && mGarb == oGarb
+  let agree := mFull == oFull && mPart == oPart && mGarb == oGarb && reqAgree
   -- specification on the implementation's dumps
   let fullOk := resOf fullS "FULL" = "ok"
   let partOk := resOf partS "PART" = "ok"
@@ -153,7 +210,7 @@ def run (inp obs : List String) : Verdict :=
                if partOk then "part-ok" else "part-err"] ++
     (if sw ≠ 63 || field inp "shape" ≠ "0" then ["nt"] else [])
   { agree := agree, spec := s1 ++ s2 ++ s3 ++ s4, tags := tags,
-    model := if agree then "ok" else
+    model := if agree then "ok" else if !reqAgree then s!"request: Req.apply gives {modelTok} sw={swOf req}, the harness reports {harnessTok} sw={sw}" else
       (if mFull ≠ oFull then "FULL model: " ++ mFull
        else if mPart ≠ oPart then "PART model: " ++ mPart else "GARB model: " ++ mGarb) }
 
